@@ -303,6 +303,15 @@ func (db *ContractDB) loadContractFile(path, pkg string) error {
 				cur.LoopExits[n] = append(cur.LoopExits[n], c)
 				continue
 			}
+			if strings.HasPrefix(rc.text, "loop * invariant") {
+				// loop * invariant label: expr — an invariant of every loop of the function (ordinal 0)
+				c, err := mk(strings.TrimSpace(strings.TrimPrefix(rc.text, "loop * invariant")))
+				if err != nil {
+					return fail(err)
+				}
+				cur.Loops[0] = append(cur.Loops[0], c)
+				continue
+			}
 			m := reLoop.FindStringSubmatch(rc.text)
 			if m == nil {
 				return fail(fmt.Errorf("bad loop clause"))
